@@ -202,7 +202,7 @@ def measure_drift(work, files, limit=12):
     pick = [f for f in files if os.path.exists(f)][:limit]
     if not pick:
         return {"files": 0}
-    res = validate_many(work, pick, ["DriftFree"], module="TraceDrift", spec="DriftSpec")
+    res = validate_many(work, pick, ["DriftFree", "RangeCFree"], module="TraceDrift", spec="DriftSpec")
     out = {"files": len(pick), "lines": sum(r.states for r in res), "drift_free": all(r.ok for r in res)}
     for r in res:
         if r.invariant:
